@@ -10,7 +10,10 @@ ANCHOR_FILES = ['config.py']
 RULE = ('1-3 probe configurables (function / class with __init__ / class with __new__; configurable / register / '
         'external_configurable) with random signatures of 0-5 parameters (+*args/**kwargs), 0-8 bindings under '
         'prefixes and siblings of a focus scope of depth 0-4 over a 3-letter alphabet, 1-4 calls each under a chain '
-        'of 0-4 config_scope entries with a random positional/keyword/omitted split; non-trivial = some call '
+        'of 0-4 config_scope entries with a random positional/keyword/omitted split; in a quarter of the cases the '
+        'probes alter the mutable arguments they received and later calls / get_bindings must still see what was '
+        'bound; every tenth case a bound method (instance method, classmethod or callable object whose first '
+        'parameter has any name) made configurable on its own, run on the real code only; non-trivial = some call '
         'succeeds with at least one binding applying under a proper (non-root or overridden) prefix and at least '
         'one caller-supplied parameter; distinct = distinct canonical op list')
 TRUSTED_BASE = ['Lean 4.33 kernel', 'axioms ⊆ {propext, Classical.choice, Quot.sound}',
@@ -83,6 +86,42 @@ def gen_case(rng):
       for key in ('_bad_enter', '_left_by'):
         call.pop(key, None)
       body.append(call)
+  if rng.random() < 0.25:
+    # callees that alter what they were handed (append to a list, add a key to a dict ...): what a parameter is bound
+    # to stays what was bound, so every later call — same scope, a longer or shorter prefix, the root — and every
+    # later get_bindings still sees the bound value
+    for op in body:
+      if op['op'] == 'call' and rng.random() < 0.8:
+        op['_mutate'] = True
+    cand = [r for r in regs if not r['allow'] and not r['deny'] and sum(G.sig_names(r['sig'], r['_kind']), [])]
+    if cand:
+      reg = rng.choice(cand)
+      pos, kwo = G.sig_names(reg['sig'], reg['_kind'])
+      tgt = rng.choice(scopes)
+      held = rng.sample(pos + kwo, rng.randint(1, min(2, len(pos + kwo))))
+      for nm in held:
+        body.append({'op': 'bind', 'scope': '/'.join(tgt[:rng.randint(0, len(tgt))]), 'sel': reg['_selector'], 'arg': nm,
+                     'val': rng.choice([{'l': [G.gen_value(rng, 1) for _ in range(rng.randint(0, 3))]},
+                                        {'d': [[{'s': 'k'}, G.gen_value(rng, 1)]]}, {'d': []},
+                                        {'t': [1, {'l': [G.gen_value(rng, 2)]}]}]),
+                     '_form': rng.choice(['tuple', 'text']), 'block': False})
+      for i in range(rng.randint(2, 4)):
+        # the calls leave the held parameters to the configuration (the first one always, later ones mostly)
+        at = tgt + [rng.choice(G.SCOPE_ALPHA)] if rng.random() < 0.25 else tgt
+        call = G.gen_call(rng, reg, G.gen_enter(rng, at, 0.0), w_bad=0.0)
+        keep = [nm for nm in held if i > 0 and rng.random() < 0.2]
+        npos = len(call['args']) - (1 if reg['_kind'] != 'fn' else 0)
+        for j, nm in enumerate(pos):
+          if nm in held and nm not in keep and j < npos:
+            npos = j
+        call['args'] = call['args'][:npos + (1 if reg['_kind'] != 'fn' else 0)]
+        call['kwargs'] = [kv for kv in call['kwargs'] if kv[0] not in held or kv[0] in keep]
+        for key in ('_bad_enter', '_left_by'):
+          call.pop(key, None)
+        call['_mutate'] = rng.random() < 0.85
+        body.append(call)
+        if rng.random() < 0.3:
+          body.append({'op': 'getb', 'sel': reg['_selector'], 'scope': tgt, 'inherit': rng.random() < 0.7})
   ops += body
   ops.append({'op': 'config'})
   if rng.random() < 0.25:
@@ -146,14 +185,122 @@ def run_method_order_case(case):
   return {'out': [], 'facts': facts}
 
 
+# a *bound* method (of an instance, or a classmethod taken from its class) made configurable on its own with
+# external_configurable / register: the parameter the instance or class fills belongs to nobody — whatever it is
+# called (`self`, `cls`, `this` ...) — and the caller's positional values are the parameters after it.  Random cases
+# on the real code, judged by the oracle only (the mirror has no bound probes).
+def gen_bound_case(rng):
+  names = rng.sample(['width', 'depth', 'mode', 'rate', 'x'], rng.randint(1, 4))
+  nkw = rng.randint(0, min(2, len(names) - 1))
+  pos = [[n, None if rng.random() < 0.2 else -1 - i] for i, n in enumerate(names[:len(names) - nkw])]
+  pos.sort(key=lambda p: p[1] is not None)
+  kwonly = [[n, None if rng.random() < 0.2 else -10 - i] for i, n in enumerate(names[len(names) - nkw:])]
+  focus = G.rand_scope(rng)
+  scopes = [focus[:i] for i in range(len(focus) + 1)] + [focus[:i] + ['zz'] for i in range(len(focus) + 1)]
+  binds, val = [], 100
+  for n in names:
+    for sc in rng.sample(scopes, min(len(scopes), rng.choice([0, 1, 1, 2, 3]))):
+      val += 1
+      binds.append(['/'.join(sc), n, val])
+  rng.shuffle(binds)
+  calls = []
+  for _ in range(rng.randint(2, 4)):
+    k = rng.randint(0, len(pos))
+    if rng.random() < 0.6:
+      k = max(k, 1)
+    rest = [n for n, _ in pos[k:]] + [n for n, _ in kwonly]
+    calls.append({'scope': rng.choice(scopes[:len(focus) + 1] + [focus]), 'args': [rng.randint(1, 9) for _ in range(k)],
+                  'kwargs': [[n, rng.randint(11, 19)] for n in rest if rng.random() < 0.3]})
+  flavour = rng.choice(['classmethod', 'classmethod', 'instance', 'instance', 'callable_object'])
+  first = rng.choice(['cls', 'klass'] if flavour == 'classmethod' else ['self', 'self', 'this', 'me', 'obj'])
+  return {'dom': 'gin', '_kind': 'bound_method', 'flavour': flavour, 'first': first, 'api': rng.choice(['external', 'register']),
+          'pos': pos, 'kwonly': kwonly, 'binds': binds, 'calls': calls, 'ops': []}
+
+
+def run_bound_case(case):
+  import contextlib
+  import core
+  gin = core.fresh_gin()
+  plist = [n if d is None else f'{n}={d}' for n, d in case['pos']]
+  if case['kwonly']:
+    plist += ['*'] + [n if d is None else f'{n}={d}' for n, d in case['kwonly']]
+  allnames = [n for n, _ in case['pos'] + case['kwonly']]
+  mname = '__call__' if case['flavour'] == 'callable_object' else 'make'
+  src = 'class Maker:\n'
+  if case['flavour'] == 'classmethod':
+    src += '  @classmethod\n'
+  src += f'  def {mname}({", ".join([case["first"]] + plist)}):\n'
+  src += '    _ran.append(1)\n    return {' + ', '.join(f'{n!r}: {n}' for n in allnames) + '}\n'
+  ran = []
+  g = {'__name__': 'bm', '_ran': ran}
+  exec(src, g)  # pylint: disable=exec-used
+  cls = g['Maker']
+  target = {'classmethod': lambda: cls.make, 'instance': lambda: cls().make, 'callable_object': cls}[case['flavour']]()
+  facts = {'calls': []}
+  try:
+    if case['api'] == 'external':
+      fn = gin.external_configurable(target, name='make', module='bm')
+    else:
+      gin.register('make', module='bm')(target)
+      fn = gin.get_configurable(target)
+    for sc, n, v in case['binds']:
+      gin.bind_parameter((sc + '/' if sc else '') + 'bm.make.' + n, v)
+  except Exception as e:  # pylint: disable=broad-except
+    facts['error'] = f'{type(e).__name__}: {e}'[:300]
+    return {'out': [], 'facts': facts}
+  for c in case['calls']:
+    del ran[:]
+    try:
+      with contextlib.ExitStack() as st:
+        if c['scope']:
+          st.enter_context(gin.config_scope('/'.join(c['scope'])))
+        facts['calls'].append({'got': fn(*c['args'], **dict(c['kwargs']))})
+    except Exception as e:  # pylint: disable=broad-except
+      facts['calls'].append({'err': f'{type(e).__name__}: {e}'[:200], 'ran': bool(ran)})
+  return {'out': [], 'facts': facts}
+
+
+def bound_oracle(case, f):
+  what = (f'bound {case["flavour"]} (first parameter {case["first"]!r}, {case["api"]}) with parameters '
+          f'{case["pos"]} / keyword-only {case["kwonly"]}, bindings {case["binds"]}')
+  if 'error' in f:
+    return f'{what}: {f["error"]}'
+  for c, r in zip(case['calls'], f['calls']):
+    want = {}
+    for i, (n, d) in enumerate(case['pos'] + case['kwonly']):
+      if i < len(c['args']) and i < len(case['pos']):
+        want[n] = c['args'][i]
+      elif n in dict(c['kwargs']):
+        want[n] = dict(c['kwargs'])[n]
+      else:
+        for k in range(len(c['scope']) + 1):      # shortest prefix first: a longer prefix overrides
+          for sc, bn, v in case['binds']:
+            if bn == n and sc == '/'.join(c['scope'][:k]):
+              want[n] = v
+        if n not in want and d is not None:
+          want[n] = d
+      if n not in want:
+        want = None     # a parameter nobody supplies: the call cannot succeed
+        break
+    call = f'called in scope {"/".join(c["scope"])!r} with {c["args"]} {c["kwargs"]}'
+    if want is None:
+      if 'got' in r or r.get('ran'):
+        return f'{what}: {call}: a parameter has no value, yet the body ran ({r})'
+    elif r.get('got') != want:
+      return f'{what}: {call}: received {r.get("got", r.get("err"))}, caller values over bindings over defaults give {want}'
+  return None
+
+
 def run_impl(case):
   if case.get('_kind') == 'method_order':
     return run_method_order_case(case)
+  if case.get('_kind') == 'bound_method':
+    return run_bound_case(case)
   return gindom.run_impl(case)
 
 
 def compare(case, impl, model):
-  if case.get('_kind') == 'method_order':
+  if case.get('_kind') in ('method_order', 'bound_method'):
     return None
   return gindom.compare(case, impl, model)
 
@@ -161,7 +308,9 @@ def compare(case, impl, model):
 def gen_cases(rng, tier, boost=1):
   yield from METHOD_ORDER_CASES
   n = (1500 if tier == 'quick' else 40000) * boost
-  for _ in range(n):
+  for i in range(n):
+    if i % 10 == 0:
+      yield gen_bound_case(rng)
     yield gen_case(rng)
 
 
@@ -174,6 +323,8 @@ def _overlay(binds, sel, scope):
 
 def oracle(case, impl):
   """C01 stated directly: caller's values pass through, longest applicable prefix wins, nothing else."""
+  if case.get('_kind') == 'bound_method':
+    return bound_oracle(case, impl['facts'])
   if case.get('_kind') == 'method_order':
     f = impl['facts']
     if 'error' in f:
@@ -238,6 +389,8 @@ def oracle(case, impl):
 def nontrivial(case, impl):
   if case.get('_kind') == 'method_order':
     return True
+  if case.get('_kind') == 'bound_method':
+    return any('got' in r and c['args'] for c, r in zip(case['calls'], impl['facts'].get('calls', [])))
   binds = {}
   for op, res in zip(case['ops'], impl['out']):
     if op['op'] == 'bind' and 'ok' in res:
@@ -254,6 +407,10 @@ def tally(stats, case, impl):
   if case.get('_kind') == 'method_order':
     stats['method_order_cases'] = stats.get('method_order_cases', 0) + 1
     return
+  if case.get('_kind') == 'bound_method':
+    k = 'bound_method:' + case['flavour'] + '/' + case['api']
+    stats[k] = stats.get(k, 0) + 1
+    return
   for op, res in zip(case['ops'], impl['out']):
     k = op['op'] + ':' + ('ok' if 'ok' in res else res['err'])
     stats[k] = stats.get(k, 0) + 1
@@ -267,6 +424,11 @@ def tally(stats, case, impl):
 
 def shrink(case):
   if case.get('_kind') == 'method_order':
+    return
+  if case.get('_kind') == 'bound_method':
+    for fld in ('calls', 'binds'):
+      for i in range(len(case[fld]) - 1, -1, -1):
+        yield dict(case, **{fld: case[fld][:i] + case[fld][i + 1:]})
     return
   ops = case['ops']
   for k in range(len(ops) - 1, -1, -1):
